@@ -530,6 +530,84 @@ def many_literals_created_twice(n=140):
     return prog(st, [("o", "P0", prev)], ["many-literals-created-twice"])
 
 
+def dup_inputs_only_in_function_bodies():
+    """two different inputs under one name that are met only inside function bodies (different functions, different
+    parties), or one in the program body and one only inside a function body: rejected like any other collision;
+    if such a program is ever accepted, the tables must still be exact"""
+    f = {"k": "def", "f": "f", "params": [("e", SI)], "ret": SI, "body": [inp("k1", "k", SI, "P0", "first k"), {"k": "bin", "x": "r", "op": "OAdd", "a": "e", "b": "k1"}], "res": "r", "form": "decorator"}
+    g = {"k": "def", "f": "g", "params": [("e", SI)], "ret": SI, "body": [inp("k2", "k", SI, "P1", "second k"), {"k": "bin", "x": "r", "op": "OMul", "a": "e", "b": "k2"}], "res": "r", "form": "decorator"}
+    h = {"k": "def", "f": "h", "params": [("e", SI)], "ret": SI, "body": [inp("k3", "k", SI, "P0", "inner k"), {"k": "bin", "x": "r", "op": "OSub", "a": "e", "b": "k3"}], "res": "r", "form": "decorator"}
+    # the same collisions with the inputs created in the program body and only USED inside the function bodies (closures)
+    fc = {"k": "def", "f": "fc", "params": [("e", SI)], "ret": SI, "body": [{"k": "bin", "x": "r", "op": "OAdd", "a": "e", "b": "c1"}], "res": "r", "form": "decorator"}
+    gc = {"k": "def", "f": "gc", "params": [("e", SI)], "ret": SI, "body": [{"k": "bin", "x": "r", "op": "OMul", "a": "e", "b": "c2"}], "res": "r", "form": "decorator"}
+    return [prog([inp("arr", "arr", ("arr", SI, 3)), inp("c1", "k", SI, "P0", "first k"), inp("c2", "k", SI, "P1", "second k"), fc, gc,
+                  {"k": "map", "x": "m1", "a": "arr", "f": "fc"}, {"k": "map", "x": "m2", "a": "arr", "f": "gc"}],
+                 [("o1", "P0", "m1"), ("o2", "P1", "m2")], ["dup-input", "captured-by-two-function-bodies"]),
+            prog([inp("arr", "arr", ("arr", SI, 3)), inp("c1", "k", SI, "P0", "first k"), inp("c2", "k", SI, "P0", "second k"), fc,
+                  {"k": "map", "x": "m1", "a": "arr", "f": "fc"}],
+                 [("o1", "P0", "m1"), ("o2", "P0", "c2")], ["dup-input", "one-captured-one-output"]),
+            prog([inp("arr", "arr", ("arr", SI, 3)), f, g, {"k": "map", "x": "m1", "a": "arr", "f": "f"}, {"k": "map", "x": "m2", "a": "arr", "f": "g"}],
+                 [("o1", "P0", "m1"), ("o2", "P1", "m2")], ["dup-input", "only-in-function-bodies"]),
+            prog([inp("arr", "arr", ("arr", SI, 3)), inp("k0", "k", SI, "P0", "outer k"), h, {"k": "map", "x": "m", "a": "arr", "f": "h"}],
+                 [("o1", "P0", "m"), ("o2", "P0", "k0")], ["dup-input", "program-body-and-function-body"])]
+
+
+def helper_applied_twice_in_a_nested_body():
+    """a helper never used by the program body, applied twice in the body of a function that is itself only reachable
+    through a reduce inside another function: each function is emitted once"""
+    ROW = ("arr", SI, None)
+    add = {"k": "def", "f": "add", "params": [("p", SI), ("q", SI)], "ret": SI, "body": [{"k": "bin", "x": "s", "op": "OAdd", "a": "p", "b": "q"}], "res": "s", "form": "decorator"}
+    add3 = {"k": "def", "f": "add3", "params": [("acc", SI), ("a", SI)], "ret": SI,
+            "body": [{"k": "call", "x": "t", "f": "add", "args": ["acc", "a"], "kwargs": []}, {"k": "call", "x": "u", "f": "add", "args": ["t", "bias"], "kwargs": []}], "res": "u", "form": "decorator"}
+    rowsum = {"k": "def", "f": "rowsum", "params": [("acc", SI), ("row", ROW)], "ret": SI,
+              "body": [{"k": "reduce", "x": "r", "a": "row", "f": "add3", "init": "acc"}], "res": "r", "form": "decorator"}
+    return prog([inp("m", "m", ("arr", ("arr", SI, 2), 3)), inp("zero", "zero", SI), inp("bias", "bias", SI), add, add3, rowsum,
+                 {"k": "reduce", "x": "total", "a": "m", "f": "rowsum", "init": "zero"}],
+                [("o", "P0", "total")], ["helper-applied-twice-in-a-nested-body", "array-param"])
+
+
+def same_operation_written_twice():
+    """the same operation written twice on the same value objects is two operations (a cache on the value would merge them)"""
+    SB_ = S("Secret", "Bool")
+    return prog([inp("a", "a", SI), inp("b", "b", SI), inp("q", "q", SB_),
+                 {"k": "topublic", "x": "t1", "a": "a"}, {"k": "topublic", "x": "t2", "a": "a"},
+                 {"k": "topublic", "x": "u1", "a": "q"}, {"k": "topublic", "x": "u2", "a": "q"},
+                 {"k": "bin", "x": "s1", "op": "OAdd", "a": "a", "b": "b"}, {"k": "bin", "x": "s2", "op": "OAdd", "a": "a", "b": "b"},
+                 {"k": "not", "x": "n1", "a": "q"}, {"k": "not", "x": "n2", "a": "q"},
+                 {"k": "bin", "x": "e1", "op": "OPublicEquals", "a": "a", "b": "b"}, {"k": "bin", "x": "e2", "op": "OPublicEquals", "a": "a", "b": "b"},
+                 {"k": "bin", "x": "c1", "op": "OLt", "a": "a", "b": "b"}, {"k": "ifelse", "x": "i1", "c": "c1", "a": "a", "b": "b"}, {"k": "ifelse", "x": "i2", "c": "c1", "a": "a", "b": "b"},
+                 {"k": "bin", "x": "d", "op": "OSub", "a": "t1", "b": "t2"}, {"k": "bin", "x": "x", "op": "OXor", "a": "u1", "b": "u2"}],
+                [("o1", "P0", "t1"), ("o2", "P0", "t2"), ("o3", "P0", "u2"), ("o4", "P0", "s1"), ("o5", "P0", "s2"), ("o6", "P0", "n2"), ("o7", "P0", "n1"),
+                 ("o8", "P0", "e1"), ("o9", "P0", "e2"), ("o10", "P0", "i1"), ("o11", "P0", "i2"), ("o12", "P0", "d"), ("o13", "P0", "x")],
+                ["same-operation-written-twice"])
+
+
+def unzip_of_a_zip_of_a_mapped_array():
+    """unzip(xs.map(f).zip(ys)) and the mirrored form: rejected today (TypeError in ArrayType.to_mir); if ever accepted,
+    both halves are arrays of the zip's size"""
+    dbl = {"k": "def", "f": "double", "params": [("e", SI)], "ret": SI, "body": [{"k": "bin", "x": "s", "op": "OAdd", "a": "e", "b": "e"}], "res": "s", "form": "decorator"}
+    out = []
+    for tag, l, r in (("mapped-left", "m", "ys"), ("mapped-right", "ys", "m")):
+        out.append(prog([inp("xs", "xs", ("arr", SI, 3)), inp("ys", "ys", ("arr", PI, 3)), dbl, {"k": "map", "x": "m", "a": "xs", "f": "double"},
+                         {"k": "zip", "x": "z", "a": l, "b": r}, {"k": "unzip", "x": "u", "a": "z"}],
+                        [("o", "P0", "u")], ["unzip-of-a-zip-of-a-mapped-array", tag]))
+    return out
+
+
+def explicit_types_override_annotations():
+    """nada_fn(fn, args_ty=..., return_ty=...) on a function whose Python annotations say something else: the explicit
+    types decide (accepted form: an annotated secret adder re-typed as a public one)"""
+    d = prog([inp("ps", "ps", ("arr", PI, 3)), inp("z", "z", PI),
+              {"k": "def", "f": "public_add", "params": [("acc", PI), ("x", PI)], "ret": PI, "body": [{"k": "bin", "x": "s", "op": "OAdd", "a": "acc", "b": "x"}], "res": "s", "form": "explicit"},
+              {"k": "reduce", "x": "r", "a": "ps", "f": "public_add", "init": "z"}], [("o", "P0", "r")], ["annotations-vs-explicit-types", "accepted"])
+    d["text"] = ("from nada_dsl import *\n\n\ndef nada_main():\n    party_P0 = Party(name='P0')\n"
+                 "    ps = Array(PublicInteger(Input(name='ps', party=party_P0)), size=3)\n    z = PublicInteger(Input(name='z', party=party_P0))\n"
+                 "    def public_add(acc: SecretInteger, x: SecretInteger) -> SecretInteger:\n        s = acc + x\n        return s\n"
+                 "    public_add = nada_fn(public_add, args_ty={'acc': PublicInteger, 'x': PublicInteger}, return_ty=PublicInteger)\n"
+                 "    r = ps.reduce(public_add, z)\n    return [Output(r, 'o', party_P0)]\n")
+    return d
+
+
 def objects_same_fields_other_order():
     """two objects (and two n-tuples) with the same field names and types written in different orders, mixed secrecy"""
     PI = S("Public", "Int")
@@ -654,4 +732,4 @@ def all_families():
             dup_inputs("same-party-one-dead"), literal_array_inner(), object_key_order(), literal_divisions(),
             closure_factory(), kwargs_reordered(), unzip_compound(), reduce_public_seed(), rebound_closure_variable(), explicit_types_reordered(), objects_same_fields_other_order(), dup_inputs_one_line('comprehension'), dup_inputs_one_line('helper'), matrix_params_two_element_types(),
             declassifying_function_mapped(), row_function_over_two_matrices(), array_returning_function(), call_chain_depth_four(),
-            operations_shared_between_tables(), same_output_name_to_several_parties(), attribute_like_field_names(), literal_used_as_seed_and_operand(), literals_of_equal_python_values()] + names_with_blanks_and_shared_names() + random_draws_made_by_one_line() + operator_pairs() + rejected_functions() + wrong_arity_calls()
+            operations_shared_between_tables(), same_output_name_to_several_parties(), attribute_like_field_names(), literal_used_as_seed_and_operand(), literals_of_equal_python_values(), helper_applied_twice_in_a_nested_body(), same_operation_written_twice(), explicit_types_override_annotations()] + unzip_of_a_zip_of_a_mapped_array() + names_with_blanks_and_shared_names() + dup_inputs_only_in_function_bodies() + random_draws_made_by_one_line() + operator_pairs() + rejected_functions() + wrong_arity_calls()
